@@ -127,6 +127,35 @@ def replay_fn_if(a, b, c, n):
     return replay_fn("#if", args, r_if(args))
 
 
+def fn_if_padded(truthy: bool, blank: bool, n: int) -> bool:
+    """
+    pre: 1 <= n <= 3
+    post: _
+    """
+    # (concrete texts, symbolic shape: strip() of a concatenation with a symbolic string gave non-reproducing models)
+    args = [("x" if truthy else (" " if blank else "")), " b", "c "][:n]
+    return call_padded("#if", args) == r_if_padded(args)
+
+
+def replay_fn_if_padded(truthy, blank, n):
+    args = [("x" if truthy else (" " if blank else "")), " b", "c "][:n]
+    return replay_fn_padded("#if", args, r_if_padded(args))
+
+
+def fn_ifeq_padded(same: bool, n: int) -> bool:
+    """
+    pre: 2 <= n <= 4
+    post: _
+    """
+    args = ["a", "a" if same else "b", " y", "n "][:n]
+    return call_padded("#ifeq", args) == r_ifeq(args)
+
+
+def replay_fn_ifeq_padded(same, n):
+    args = ["a", "a" if same else "b", " y", "n "][:n]
+    return replay_fn_padded("#ifeq", args, r_ifeq(args))
+
+
 def fn_ifeq(a: str, b: str, n: int) -> bool:
     """
     pre: 0 <= n <= 4 and len(a) <= 2 and len(b) <= 2
@@ -610,7 +639,7 @@ def run(rep: C.Report) -> None:
                 "^dup_": dict(name="Ob8 arguments are bound left to right: later duplicates win, positional arguments are numbered independently of named ones", functions=["core.py:Wtp.expand argument loop (AST slice)"], bounds=f"argument lists of 2{'' if quick else '..3'} over {{named, positional}}; names 1 symbolic char over {{a,b,1,2}}, values 1 symbolic char over {{x,y,space}}"),
                 "^bind_": dict(name="Ob7 an argument passed as name=value is found by {{{name}}}: the expander's key and the reference's key agree", functions=["core.py:Wtp.expand argument loop (AST slice)", "core.py:Wtp.expand.expand_args (AST slice)"], bounds=f"names of 1..{2 if quick else 3} symbolic chars over {{0,1,a,space}}"),
                 "^param_": dict(name="Ob2 parameter references: trimmed name, positional numerals, default, literal when undefined", functions=["core.py:Wtp.expand.expand_args (AST slice)"], bounds=f"names of 1..{3 if quick else 4} symbolic chars over {{space,1,2,a,b,newline}}, with/without default, fixed argument map"),
-                "^fn_|^sw_": dict(name="Ob3 #if / #ifeq / #switch follow the ParserFunctions rules", functions=["parserfns.py:if_fn", "parserfns.py:ifeq_fn", "parserfns.py:switch_fn"], bounds=f"#if/#ifeq: 0..4 arguments <= 2 symbolic chars; #switch: every case skeleton of 1..{2 if quick else 3} items over {{k=v, fall-through, #default=v, #default}} with symbolic keys and value, plus {'the 3-item skeletons that start with a fall-through case and three 4-item groups' if quick else 'four longer fall-through groups'}"),
+                "^fn_|^sw_": dict(name="Ob3 #if / #ifeq / #switch follow the ParserFunctions rules", functions=["parserfns.py:if_fn", "parserfns.py:ifeq_fn", "parserfns.py:switch_fn"], bounds=f"#if/#ifeq: 0..4 arguments <= 2 symbolic chars, with the identity expander and with an expander whose results are padded with blanks; #switch: every case skeleton of 1..{2 if quick else 3} items over {{k=v, fall-through, #default=v, #default}} with symbolic keys and value, plus {'the 3-item skeletons that start with a fall-through case and three 4-item groups' if quick else 'four longer fall-through groups'}"),
                 "^autonewline": dict(name="Ob4 automatic newline before list/table markers", functions=["common.py:add_newline_to_expansion"], bounds="t <= 3 symbolic chars (full Unicode)"),
             },
             timeout=90 if quick else 400,
